@@ -620,6 +620,8 @@ class Contract:
     skip_cases: Callable | None = None
     note: str = ""
     vacuous_ok: bool = False     # cases whose precondition is unsatisfiable are expected (recorded, not flagged)
+    extra_props: list[str] = field(default_factory=list)   # properties that own only the clauses tagged with them (props=[...])
+    no_param_reads: bool = False  # builder: the body must not read any Parameter's current value (C12 frame clause)
 
     @property
     def short(self) -> str:
@@ -931,6 +933,10 @@ def verify_function(src, registry: Registry, schema_factory, models, ct: Contrac
             except PathCut:
                 outcome = "cut"
             path.ghost["ip"] = ip
+            if ct.no_param_reads and outcome in ("return", "raise"):
+                reads = [pl for t_, pl in path.events if t_ == "param-read"]
+                path.oblige(f"{ip.oid_prefix} / no Parameter's current value is read while the result is built", z3.BoolVal(not reads),
+                            kind="frame", props=["C12"], detail=f"{len(reads)} read(s) of Parameter._value")
             if outcome == "return":
                 val = ip.models.narrow(ip, val)
                 goals = []
